@@ -33,13 +33,16 @@ def HidOK (P : Program) (s : St) : Prop := ∀ n, 0 < s.hideCount n → s.badOrd
 structure RX (P : Program) (ex : Option Nat) (s : St) : Prop where
   hid : HidOK P s
   frames : ∀ (i : Nat) (tk : Task), s.tasks[i]? = some tk → some i ≠ ex → RFramesOK P tk.frames
+  /-- the nodes a restart has invalidated (and that are hidden when a DAG needs them again) belong to its subgraph -/
+  stale : ∀ n ∈ s.stale, InRecScope P n
 
 /-- a state change that leaves the hide counters alone, keeps a raised `badOrd`, and maps the tasks frame-preservingly -/
-theorem RX.map {P : Program} {ex : Option Nat} {s s' : St} (h : RX P ex s) (h1 : s'.hideCount = s.hideCount)
+theorem RX.map {P : Program} {ex : Option Nat} {s s' : St} (h : RX P ex s) (h0 : s'.stale = s.stale)
+    (h1 : s'.hideCount = s.hideCount)
     (h2 : s.badOrd = true → s'.badOrd = true)
     (h3 : ∀ (i : Nat) (tk' : Task), s'.tasks[i]? = some tk' → ∃ tk, s.tasks[i]? = some tk ∧ tk'.frames = tk.frames) :
     RX P ex s' := by
-  refine ⟨?_, ?_⟩
+  refine ⟨?_, ?_, by rw [h0]; exact h.stale⟩
   · intro n hn
     rw [h1] at hn
     rcases h.hid n hn with hb | hr
@@ -60,7 +63,7 @@ theorem wakeIf_fr (p : Wait → Bool) (tk : Task) : (wakeIf p tk).frames = tk.fr
   unfold wakeIf; split <;> (try split) <;> rfl
 
 theorem RX.notify {P : Program} {ex : Option Nat} {s : St} (h : RX P ex s) (k : Key) : RX P ex (notify s k) :=
-  h.map rfl id (tasks_map_frames _ (wakeIf_fr _))
+  h.map rfl rfl id (tasks_map_frames _ (wakeIf_fr _))
 
 theorem RX.notifyAll {P : Program} {ex : Option Nat} (ks : List Key) : ∀ {s : St}, RX P ex s → RX P ex (notifyAll s ks) := by
   induction ks with
@@ -68,7 +71,7 @@ theorem RX.notifyAll {P : Program} {ex : Option Nat} (ks : List Key) : ∀ {s : 
   | cons k ks ih => intro s h; simp only [Eng.notifyAll, List.foldl_cons]; exact ih (h.notify k)
 
 theorem RX.setEvent {P : Program} {ex : Option Nat} {s : St} (h : RX P ex s) (n : Node) : RX P ex (setEvent s n) :=
-  h.map rfl id (tasks_map_frames _ (wakeIf_fr _))
+  h.map rfl rfl id (tasks_map_frames _ (wakeIf_fr _))
 
 theorem RX.nodeFinally {P : Program} {ex : Option Nat} {s : St} (h : RX P ex s) (d : DagRef) (n : Node) (u : Bool) :
     RX P ex (nodeFinally P s d n u) := by
@@ -90,27 +93,28 @@ theorem RX.unwindFrames {P : Program} {ex : Option Nat} (fs : List Frame) : ∀ 
     · exact ih (h.nodeFinally _ _ _)
 
 /-- updates of the storage that touch neither the task list nor the hide counters nor `badOrd` -/
-theorem RX.data {P : Program} {ex : Option Nat} {s s' : St} (h : RX P ex s) (h1 : s'.hideCount = s.hideCount)
+theorem RX.data {P : Program} {ex : Option Nat} {s s' : St} (h : RX P ex s) (h0 : s'.stale = s.stale)
+    (h1 : s'.hideCount = s.hideCount)
     (h2 : s'.badOrd = s.badOrd) (h3 : s'.tasks = s.tasks) : RX P ex s' :=
-  h.map h1 (fun hb => by rw [h2]; exact hb) (fun i tk' hi => ⟨tk', by rw [← h3]; exact hi, rfl⟩)
+  h.map h0 h1 (fun hb => by rw [h2]; exact hb) (fun i tk' hi => ⟨tk', by rw [← h3]; exact hi, rfl⟩)
 
 theorem RX.setRes {P : Program} {ex : Option Nat} {s : St} (h : RX P ex s) (n : Node) (v : Val) : RX P ex (s.setRes n v) :=
-  h.data rfl rfl rfl
+  h.data rfl rfl rfl rfl
 theorem RX.setSw {P : Program} {ex : Option Nat} {s : St} (h : RX P ex s) (n : Node) (lc : Label × Node) :
-    RX P ex (s.setSw n lc) := h.data rfl rfl rfl
+    RX P ex (s.setSw n lc) := h.data rfl rfl rfl rfl
 theorem RX.setActive {P : Program} {ex : Option Nat} {s : St} (h : RX P ex s) (a : List (Node × Node)) :
-    RX P ex (s.setActive a) := h.data rfl rfl rfl
+    RX P ex (s.setActive a) := h.data rfl rfl rfl rfl
 theorem RX.setAdditional {P : Program} {ex : Option Nat} {s : St} (h : RX P ex s) (n : Node) (v : Val) :
-    RX P ex (s.setAdditional n v) := h.data rfl rfl rfl
+    RX P ex (s.setAdditional n v) := h.data rfl rfl rfl rfl
 theorem RX.setOutcome {P : Program} {ex : Option Nat} {s : St} (h : RX P ex s) (o : Outcome) :
-    RX P ex (s.setOutcome o) := h.data rfl rfl rfl
+    RX P ex (s.setOutcome o) := h.data rfl rfl rfl rfl
 theorem RX.markProcessed {P : Program} {ex : Option Nat} {s : St} (h : RX P ex s) (n : Node) :
-    RX P ex (s.markProcessed n) := h.data rfl rfl rfl
+    RX P ex (s.markProcessed n) := h.data rfl rfl rfl rfl
 theorem RX.openCand {P : Program} {ex : Option Nat} {s : St} (h : RX P ex s) (b : Bool) (n : Node) :
     RX P ex (openCand s b n) := by
   unfold Eng.openCand
   split
-  · exact h.data rfl rfl rfl
+  · exact h.data rfl rfl rfl rfl
   · exact h
 
 theorem RX.cancelTask {P : Program} {ex : Option Nat} {s : St} (h : RX P ex s) (t : Nat) : RX P ex (cancelTask s t) := by
@@ -120,7 +124,7 @@ theorem RX.cancelTask {P : Program} {ex : Option Nat} {s : St} (h : RX P ex s) (
   · next tk htk =>
     have key : ∀ tk2 : Task, tk2.frames = tk.frames → RX P ex (s.setTask t tk2) := by
       intro tk2 hf
-      refine h.map rfl id ?_
+      refine h.map rfl rfl id ?_
       intro i tk' hi
       simp only [St.setTask] at hi
       by_cases hit : i = t
@@ -144,7 +148,7 @@ theorem RX.cancelTasks {P : Program} {ex : Option Nat} (ts : List Nat) : ∀ {s 
 /-- installing the new frames of the running task closes the section -/
 theorem RX.setTask {P : Program} {s : St} {t : Nat} (h : RX P (some t) s) (tk' : Task) (hf : RFramesOK P tk'.frames) :
     RX P none (s.setTask t tk') := by
-  refine ⟨h.hid, ?_⟩
+  refine ⟨h.hid, ?_, h.stale⟩
   intro i tk hi _
   simp only [St.setTask] at hi
   by_cases hit : i = t
@@ -157,7 +161,7 @@ theorem RX.setTask {P : Program} {s : St} {t : Nat} (h : RX P (some t) s) (tk' :
 
 theorem RX.spawn {P : Program} {ex : Option Nat} {s : St} (h : RX P ex s) (fs : List Frame) (nm : TaskName)
     (hf : RFramesOK P fs) : RX P ex (spawn s fs nm).1 := by
-  refine ⟨h.hid, ?_⟩
+  refine ⟨h.hid, ?_, h.stale⟩
   intro i tk hi hne
   simp only [Eng.spawn] at hi
   by_cases hlt : i < s.tasks.length
@@ -176,7 +180,7 @@ theorem RX.spawn {P : Program} {ex : Option Nat} {s : St} (h : RX P ex s) (fs : 
 /-! ### closing a section -/
 
 theorem RX.weaken {P : Program} {s : St} {t : Nat} (h : RX P (some t) s) (hn : s.tasks[t]? = none) : RX P none s := by
-  refine ⟨h.hid, ?_⟩
+  refine ⟨h.hid, ?_, h.stale⟩
   intro i tk hi _
   exact h.frames i tk hi (by intro h'; cases h'; rw [hn] at hi; cases hi)
 
@@ -263,8 +267,8 @@ theorem rg_nodeFinish {c : Ctx} {s : St} (h : RX c.P (some c.t) s) (obs : List O
   unfold nodeFinish
   exact rg_retTo (h.nodeFinally _ _ _) obs below _ hb
 
-theorem RX.recSpawn {P : Program} {ex : Option Nat} {s : St} (h : RX P ex s) (d : DagRef) (n : Node) (v : Val) :
-    RX P ex (recSpawn s d n v) := by
+theorem RX.recSpawn {P : Program} {ex : Option Nat} {s : St} (h : RX P ex s) (P' : Program) (d : DagRef) (n : Node)
+    (v : Val) : RX P ex (recSpawn P' s d n v) := by
   unfold Eng.recSpawn
   split
   · exact h.spawn _ _ (RFramesOK.cons trivial (RFramesOK.nil _))
@@ -282,7 +286,7 @@ theorem rg_nodePost {c : Ctx} {s : St} (h : RX c.P (some c.t) s) (obs : List Obs
     RX c.P none (nodePost c s obs d n below v e).1 := by
   unfold nodePost
   simp only []
-  have h1 := (h.recSpawn d n v).storeIf e n v
+  have h1 := (h.recSpawn c.P d n v).storeIf e n v
   split
   · exact rg_cbCall h1 _ _ _ _ _ _ (fun j => RFramesOK.cons (nodeFrame_ok _ _ _ _ _) hb)
       (fun s' obs' h' => rg_nodeFinish h' obs' d n below hb) (fun e' s' obs' h' => rg_nodeCbRaise h' obs' d n below e')
@@ -380,11 +384,11 @@ theorem RX.noteOrder {P : Program} {ex : Option Nat} {s : St} (h : RX P ex s) (o
   unfold St.noteOrder
   split
   · exact h
-  · exact h.map rfl (fun _ => rfl) (fun i tk' hi => ⟨tk', hi, rfl⟩)
+  · exact h.map rfl rfl (fun _ => rfl) (fun i tk' hi => ⟨tk', hi, rfl⟩)
 
 theorem RX.hide {P : Program} {ex : Option Nat} {s : St} (h : RX P ex s) (ns : List Node)
     (hns : s.badOrd = true ∨ ∀ n ∈ ns, InRecScope P n) : RX P ex (s.hide ns) := by
-  refine ⟨?_, h.frames⟩
+  refine ⟨?_, h.frames, h.stale⟩
   intro n hn
   show s.badOrd = true ∨ _
   simp only [St.hide] at hn
@@ -394,6 +398,31 @@ theorem RX.hide {P : Program} {ex : Option Nat} {s : St} (h : RX P ex s) (ns : L
     · exact Or.inl hb
     · exact Or.inr (hall n (by simpa using hc))
   · exact h.hid n hn
+
+/-- a restart marks nodes of its own subgraph -/
+theorem RX.invalidate {P : Program} {ex : Option Nat} {s : St} (h : RX P ex s) (ns : List Node)
+    (hns : ∀ n ∈ ns, InRecScope P n) : RX P ex (s.invalidate ns) := by
+  refine ⟨h.hid, h.frames, ?_⟩
+  intro n hn
+  simp only [St.invalidate, List.mem_append] at hn
+  rcases hn with hn | hn
+  · exact hns n hn
+  · exact h.stale n hn
+
+/-- a DAG that is about to run hides only nodes a restart has marked -/
+theorem RX.refresh {P : Program} {ex : Option Nat} {s : St} (h : RX P ex s) (ns : List Node) : RX P ex (s.refresh ns) := by
+  unfold St.refresh
+  split
+  · exact h
+  · have hsub : ∀ n ∈ ns.filter s.stale.contains, InRecScope P n := by
+      intro n hn
+      simp only [List.mem_filter, List.contains_iff_mem] at hn
+      exact h.stale n hn.2
+    have h1 := h.hide (ns.filter s.stale.contains) (Or.inr hsub)
+    refine ⟨h1.hid, h1.frames, ?_⟩
+    intro n hn
+    simp only [List.mem_filter] at hn
+    exact h.stale n hn.1
 
 theorem validOrder_sub' {P : Program} {s : St} {d : DagRef} {ord : List Node} (h : validOrder P s d ord = true) :
     ∀ n ∈ ord, n ∈ d.nodes := by
@@ -452,7 +481,8 @@ theorem rg_dagInit {c : Ctx} {s : St} (h : RX c.P (some c.t) s) (obs : List Obs)
     (hb : RFramesOK c.P below) : RX c.P none (dagInit c s obs d below).1 := by
   unfold dagInit
   simp only []
-  have h1 : RX c.P (some c.t) (s.noteOrder (validOrder c.P s d c.ord)) := h.noteOrder _
+  have h1 : RX c.P (some c.t) ((s.refresh d.nodes).noteOrder (validOrder c.P (s.refresh d.nodes) d c.ord)) :=
+    (h.refresh _).noteOrder _
   split
   · exact rg_retTo h1 _ below _ hb
   · exact rg_dagLaunch d below hb _ _ _ h1
@@ -496,7 +526,7 @@ theorem rg_oneofTry {c : Ctx} (d : DagRef) (head : Node) (below : List Frame) (h
     split
     · exact rg_raiseOut h1 obs below _
     · next sub hsub =>
-      have h2 := h1.spawn [.dagInit sub] .dag (RFramesOK.cons trivial (RFramesOK.nil _))
+      have h2 := (h1.refresh sub.nodes).spawn [.dagInit sub] .dag (RFramesOK.cons trivial (RFramesOK.nil _))
       split
       · split
         · exact ih _ _ h2
@@ -533,7 +563,7 @@ theorem rg_recIter {c : Ctx} {s : St} (h : RX c.P (some c.t) s) (obs : List Obs)
   unfold recIter
   simp only []
   split
-  · exact rg_dagInit ((h.setAdditional _ _).hide _ (Or.inr (recScopeNodes_inScope hg _))) obs g _
+  · exact rg_dagInit ((h.setAdditional _ _).invalidate _ (recScopeNodes_inScope hg _)) obs g _
       (RFramesOK.cons (f := .recIterRet d n start g k) hg hb)
   · split
     · refine rg_nodeStart (h.hide [n] (Or.inr ?_)) obs d n true _ (RFramesOK.cons trivial hb)
@@ -611,7 +641,7 @@ theorem rg_deliverCancel {c : Ctx} {s : St} (h : RX c.P (some c.t) s) (tk : Task
   · exact rg_raiseOut h _ _ _
 
 theorem RX.some_of_none {P : Program} {s : St} (h : RX P none s) (t : Nat) : RX P (some t) s :=
-  ⟨h.hid, fun i tk hi _ => h.frames i tk hi (by intro h'; cases h')⟩
+  ⟨h.hid, fun i tk hi _ => h.frames i tk hi (by intro h'; cases h'), h.stale⟩
 
 theorem rframesOK_tail {P : Program} {f : Frame} {fs : List Frame} (h : RFramesOK P (f :: fs)) : RFramesOK P fs :=
   fun g hg => h g (List.mem_cons_of_mem _ hg)
@@ -694,7 +724,7 @@ theorem gateDone_fr (n inv att : Nat) (tk : Task) : (gateDone n inv att tk).fram
   · rfl
 
 theorem rinv_init (P : Program) : RX P none init := by
-  refine ⟨(fun n hn => by cases hn), ?_⟩
+  refine ⟨(fun n hn => by cases hn), ?_, (fun n hn => by cases hn)⟩
   intro i tk hi _
   have : init.tasks = [{ frames := [.mgrStart], st := .runnable .go, name := .caller }] := rfl
   rw [this] at hi
@@ -714,7 +744,7 @@ theorem rinv_step (P : Program) {s : St} (h : RX P none s) (ch : Choice) (out : 
     · cases hs
     · simp only [Option.some.injEq] at hs
       subst hs
-      exact h.map rfl id (tasks_map_frames _ (gateDone_fr n inv att))
+      exact h.map rfl rfl id (tasks_map_frames _ (gateDone_fr n inv att))
   | timer t =>
     simp only [step] at hs
     split at hs
@@ -722,7 +752,7 @@ theorem rinv_step (P : Program) {s : St} (h : RX P none s) (ch : Choice) (out : 
       split at hs
       · simp only [Option.some.injEq] at hs
         subst hs
-        refine h.map rfl id ?_
+        refine h.map rfl rfl id ?_
         intro i tk' hi
         simp only [St.setTask] at hi
         by_cases hit : i = t
